@@ -114,27 +114,51 @@ Proof. intros HQ Hk. rewrite !pmul_nmul by auto using oc_neg. apply nmul_neg; au
 Lemma n_pos : 0 < n.
 Proof. pose proof (prime_ge_2 _ (mf_n_prime P MF)). unfold n. lia. Qed.
 Lemma pmul_n_G : pmul n G = None. Proof. apply (mf_ord P MF). Qed.
-Lemma pmul_mod_n k : 0 <= k -> pmul (k mod n) G = pmul k G.
+Lemma pmul_n_Q Q : oc Q -> pmul n Q = None. Proof. apply (mf_cofactor P MF). Qed.
+Lemma pmul_mod_n_Q k Q : oc Q -> 0 <= k -> pmul (k mod n) Q = pmul k Q.
 Proof.
-  intros Hk. pose proof n_pos as Hn.
+  intros HQ Hk. pose proof n_pos as Hn.
   rewrite (Z.div_mod k n) at 2 by lia.
   assert (0 <= k / n) by (apply Z.div_pos; lia).
   assert (0 <= k mod n) by (apply Z.mod_pos_bound; lia).
-  rewrite pmul_add by (auto using oc_G; nia).
-  rewrite (Z.mul_comm n), pmul_mul by (auto using oc_G; lia).
-  rewrite pmul_n_G, pmul_None. reflexivity.
+  rewrite pmul_add by (auto; nia).
+  rewrite (Z.mul_comm n), pmul_mul by (auto; lia).
+  rewrite pmul_n_Q, pmul_None by auto. reflexivity.
+Qed.
+Lemma pmul_mod_n k : 0 <= k -> pmul (k mod n) G = pmul k G.
+Proof. intros. apply pmul_mod_n_Q; auto using oc_G. Qed.
+Lemma pmul_madd_Q a b Q : oc Q -> 0 <= a -> 0 <= b -> pmul (madd n a b) Q = padd (pmul a Q) (pmul b Q).
+Proof. intros. unfold madd. rewrite pmul_mod_n_Q by (auto; lia). apply pmul_add; auto. Qed.
+Lemma pmul_mmul_Q a b Q : oc Q -> 0 <= a -> 0 <= b -> pmul (mmul n a b) Q = pmul a (pmul b Q).
+Proof. intros. unfold mmul. rewrite pmul_mod_n_Q by (auto; nia). apply pmul_mul; auto. Qed.
+Lemma pmul_mneg_Q a Q : oc Q -> 0 <= a < n -> pmul (mneg n a) Q = pneg (pmul a Q).
+Proof.
+  intros HQ Ha. unfold mneg.
+  assert (E : padd (pmul a Q) (pmul ((- a) mod n) Q) = None).
+  { rewrite <- pmul_add by (auto; try lia; apply Z.mod_pos_bound; lia).
+    rewrite <- pmul_mod_n_Q by (auto; pose proof (Z.mod_pos_bound (-a) n); lia).
+    rewrite Zplus_mod_idemp_r. replace (a + - a) with 0 by lia. rewrite Z.mod_0_l by lia. reflexivity. }
+  apply inv_unique in E; auto using oc_pmul.
 Qed.
 Lemma pmul_madd a b : 0 <= a -> 0 <= b -> pmul (madd n a b) G = padd (pmul a G) (pmul b G).
-Proof. intros. unfold madd. rewrite pmul_mod_n by lia. apply pmul_add; auto using oc_G. Qed.
+Proof. intros. apply pmul_madd_Q; auto using oc_G. Qed.
 Lemma pmul_mmul a b : 0 <= a -> 0 <= b -> pmul (mmul n a b) G = pmul a (pmul b G).
-Proof. intros. unfold mmul. rewrite pmul_mod_n by nia. apply pmul_mul; auto using oc_G. Qed.
+Proof. intros. apply pmul_mmul_Q; auto using oc_G. Qed.
 Lemma pmul_mneg a : 0 <= a < n -> pmul (mneg n a) G = pneg (pmul a G).
+Proof. intros. apply pmul_mneg_Q; auto using oc_G. Qed.
+
+(* G has exact order n: no smaller positive multiple is the point at infinity *)
+Lemma pmul_G_nonzero k : 0 < k < n -> pmul k G <> None.
 Proof.
-  intros Ha. unfold mneg.
-  assert (E : padd (pmul a G) (pmul ((- a) mod n) G) = None).
-  { rewrite <- pmul_add by (auto using oc_G; try lia; apply Z.mod_pos_bound; lia).
-    rewrite <- pmul_mod_n by (pose proof (Z.mod_pos_bound (-a) n); lia).
-    rewrite Zplus_mod_idemp_r. replace (a + - a) with 0 by lia. rewrite Z.mod_0_l by lia. reflexivity. }
-  apply inv_unique in E; auto using oc_pmul, oc_G.
+  intros Hk H. pose proof n_pos as Hn.
+  assert (R : rel_prime k n) by (apply rel_prime_le_prime; [apply (mf_n_prime P MF)|lia]).
+  apply rel_prime_bezout in R. destruct R as [u v E].
+  assert (E1 : ((u mod n) * k) mod n = 1 mod n).
+  { rewrite Z.mul_mod_idemp_l by lia. rewrite <- E. rewrite Z.mod_add by lia. reflexivity. }
+  assert (Hu : 0 <= u mod n < n) by (apply Z.mod_pos_bound; lia).
+  assert (X : pmul (((u mod n) * k) mod n) G = None).
+  { rewrite pmul_mod_n by nia. rewrite pmul_mul by (auto using oc_G; lia). rewrite H. apply pmul_None. }
+  rewrite E1 in X. rewrite pmul_mod_n in X by lia. rewrite pmul_1 in X.
+  destruct (mf_G P MF) as [_ HG]. contradiction.
 Qed.
 End GroupLemmas.
